@@ -13,24 +13,27 @@ structure DState where
   failErr : Nat := 11
   tick : Nat := 0
 
-def parseAction (s : String) : Option Action :=
+def parseAction (s0 : String) : Option Action :=
+  let named := s0.endsWith "n" && s0.length > 1
+  let s := if named then s0.dropRight 1 else s0
   match s.toList with
   | [] => none
   | c :: r =>
     let num : Option Nat := if r.isEmpty then some 0 else (String.ofList r).toNat?
+    let slot (k : Nat) : Bool := 1 ≤ k && k < 8
     match c, num with
-    | 'L', some k => if 1 ≤ k ∧ k < 8 then some (.launch k false 0) else none
-    | 'P', some k => if 1 ≤ k ∧ k < 8 then some (.launch k true 0) else none
-    | 'Q', some k => if 1 ≤ k ∧ k < 8 then some (.launch k true 1) else none
-    | 'R', some k => if 1 ≤ k ∧ k < 8 then some (.launch k true 2) else none
-    | 'J', some k => if 1 ≤ k ∧ k < 8 then some (.join k) else none
-    | 'D', some k => if 1 ≤ k ∧ k < 8 then some (.cleanup k) else none
-    | 'A', some k => some (.atexit k)
-    | 'C', some _ => some .getCount
-    | 'W', some _ => some .joinAll
-    | 'T', some k => some (.setTimeout k)
-    | 'Y', some _ => some .yield
-    | 'S', some k => some (.sleep k)
+    | 'L', some k => if slot k then some (.launch k false 0 named) else none
+    | 'P', some k => if slot k then some (.launch k true 0 named) else none
+    | 'Q', some k => if slot k then some (.launch k true 1 named) else none
+    | 'R', some k => if slot k then some (.launch k true 2 named) else none
+    | 'J', some k => if slot k && !named then some (.join k) else none
+    | 'D', some k => if slot k && !named then some (.cleanup k) else none
+    | 'A', some k => if named then none else some (.atexit k)
+    | 'C', some _ => if named then none else some .getCount
+    | 'W', some _ => if named then none else some .joinAll
+    | 'T', some k => if named then none else some (.setTimeout k)
+    | 'Y', some _ => if named then none else some .yield
+    | 'S', some k => if named then none else some (.sleep k)
     | _, _ => none
 
 def parseActions (l : List String) : Option (List Action) := l.mapM parseAction
@@ -219,12 +222,14 @@ def runCase (d : DState) (mode : Nat) (list : List Int) : List String :=
   let P := mkProg d
   let (s, c, out) := runLoop P 20000 (init P) { mode := mode, list := list }
   let live := s.wLive + s.cbLive
-  let misuse := (s.wlog.filter (fun e => e.kind == "unlock" && e.aux != 0)).length
+  let misuse := (s.wlog.filter (fun e => e.kind == "unlock" && e.aux != 0)).length + s.misuse
+  let unjoined := ((List.range 8).filter (fun k => P.managed k && decide (2 ≤ (s.th k).status.rank) &&
+    (s.th k).status != .joined)).length
   let dl := if out == .deadlock then 1 else 0
   let ll := if out == .livelock then 1 else 0
   let cnt := if out == .finished then s.count else 0
   (s.log.reverse.flatMap showEv) ++
-  [s!"P end deadlock={dl} livelock={ll} misuse={misuse} rerun=0 count={cnt} live={live}"] ++
+  [s!"P end deadlock={dl} livelock={ll} misuse={misuse} rerun=0 count={cnt} live={live} unjoined={unjoined}"] ++
   (if out != .finished then [s!"P blocked {blockedDesc s}"] else []) ++
   (if c.diverged then ["W diverged"] else []) ++
   [String.join ("W sched" :: c.taken.reverse.map (fun x => s!" {x}"))] ++
